@@ -366,7 +366,34 @@ fn decimal_class(s: &str) -> Value {
             let pow2 = v != 0 && (v & (v - 1)) == 0;
             json!({"fits": true, "value": if v < (1u64 << 31) { json!(v) } else { json!(-1) }, "pow2": pow2, "log2": if pow2 { v.trailing_zeros() } else { 0 }})
         }
-        Err(_) => json!({"fits": false, "value": -1, "pow2": false, "log2": 0}),
+        Err(_) => {
+            // longer than 64 bits: exact all the same (halve the decimal digit string until it is odd)
+            let mut ds: Vec<u8> = digits.bytes().filter(|b| b.is_ascii_digit()).map(|b| b - b'0').collect();
+            while ds.len() > 1 && ds[0] == 0 {
+                ds.remove(0);
+            }
+            let mut log2 = 0u32;
+            let all_digits = !digits.is_empty() && digits.bytes().all(|b| b.is_ascii_digit());
+            if all_digits {
+                while ds.len() > 1 || ds[0] > 1 {
+                    if ds[ds.len() - 1] % 2 == 1 {
+                        break;
+                    }
+                    let mut carry = 0u8;
+                    for d in ds.iter_mut() {
+                        let cur = carry * 10 + *d;
+                        *d = cur / 2;
+                        carry = cur % 2;
+                    }
+                    while ds.len() > 1 && ds[0] == 0 {
+                        ds.remove(0);
+                    }
+                    log2 += 1;
+                }
+            }
+            let pow2 = all_digits && ds == vec![1];
+            json!({"fits": false, "value": -1, "pow2": pow2, "log2": if pow2 { log2 } else { 0 }})
+        }
     }
 }
 
